@@ -8,6 +8,17 @@ NOT_YET = {}
 TB = ("Trusted: Lean kernel (axioms propext, Classical.choice, Quot.sound only; audited by #print axioms on every run); "
       "the hand-written model's correspondence to the code (differential, bounded by the generators whose distribution is in the evidence); ")
 CLAIMS = {
+ "C15": dict(
+  category="proof",
+  text=("Translation + Lean 4 proof: tools/xlate.py regenerates, on every run, the accessor table of every `impl CommonResponse/CommonPlayer for T` "
+        "(29 impls) as Lean data (Gen/Views.lean); theorems re-checked against it: every accessor is syntactically the intended one of Spec/Views.lean "
+        "(reads exactly the corresponding protocol-specific field, or is None where the type has none), no accessor body is outside the translator's "
+        "grammar, as_original is `Generic…::Variant(self)` and as_json is never overridden for every type; and for ALL response values and ALL accessor "
+        "tables: an accessor returns exactly the value at its path, and the JSON form's members are exactly the accessor values (players: the players' own "
+        "JSON forms, in order). Tie: the generated tables are evaluated by the Lean driver on dumped real responses and must reproduce the real as_json(); "
+        "oracle: accessors = as_json members, as_original contains the response unchanged."),
+  note=TB + "translator (regex over one-line accessor bodies) is validated by the differential; serde rendering is trusted; Epic/Minetest (tls feature) are covered by the table theorems only.",
+  technique="source-to-Lean translation of accessor tables + Lean 4 proof over all response values + evaluation differential"),
  "C18": dict(
   category="proof",
   text=("Lean 4 theorems over a model of TimeoutSettings: the constructor rejects a zero read/write/connect duration with InvalidInput whatever "
